@@ -90,6 +90,7 @@ type VerifOp struct {
 	// compact
 	Threshold int        `json:"threshold,omitempty"`
 	CrashAt   int        `json:"crash_at,omitempty"` // panic at the k-th compact.beforeFlush (1-based), then reopen the store
+	CrashAfter int       `json:"crash_after,omitempty"` // panic at the k-th compact.afterFlush (1-based: k flush transactions committed), then reopen
 	Race      *VerifRace `json:"race,omitempty"`
 }
 
@@ -506,7 +507,15 @@ func verifCompactOp(h *verifHub, op VerifOp, idx int, times map[int]int64, oo *V
 		return
 	}
 	n := 0
+	m := 0
 	verifhook.SetHandler(func(name, arg string) {
+		if name == "compact.afterFlush" {
+			m++
+			if op.CrashAfter > 0 && m == op.CrashAfter {
+				panic(verifCrash{})
+			}
+			return
+		}
 		if name != "compact.beforeFlush" {
 			return
 		}
